@@ -41,6 +41,9 @@ type Tracker interface {
 
 // New creates a new tracker from a URL.
 func New(url string) Tracker {
+	if url == "" {
+		return nil
+	}
 	u, err := nurl.Parse(url)
 	if err != nil {
 		return nil
